@@ -229,11 +229,11 @@ RandomAccessIterator partition(RandomAccessIterator first,
   typedef partition_helper<RandomAccessIterator, Predicate> P;
   typename P::partition_helper_state s(first, last, pred);
   on_each(P(&s));
-  if (s.rfirst == first && s.rlast == last) { // perfect !
-    // abort();
-    return s.first;
-  }
-  return std::partition(s.rfirst, s.rlast, pred);
+  // The blocks that could not be finished and every (finished) block between
+  // them and the point where the low and the high side met are still out of
+  // place with respect to each other; with no such block the range is empty.
+  return std::partition(std::min(s.rfirst, s.first),
+                        std::max(s.rlast, s.first), pred);
 }
 
 struct pair_dist {
